@@ -255,3 +255,128 @@ Proof.
         unfold ins. apply filter_In. split; [exact Ho|apply N.eqb_eq; exact E]. }
       congruence.
 Qed.
+
+(* ---------------------------------------------------------------- merge_modules, several boundaries *)
+Section MbStep.
+  Variables (es es' : list edge) (m k : N) (M : list N).
+  Hypothesis Hrm : remove_mb es m k = MbOk es'.
+  Hypothesis HmM : ~ In m M.
+
+  Lemma mb_facts :
+    (forall i, In i es -> e_dst i = m -> e_src i <> m) /\
+    (forall o, In o es -> e_src o = m -> e_dst o <> m) /\
+    (forall e, In e es' <->
+       (In e es /\ e_src e <> m /\ e_dst e <> m) \/
+       (exists i o, In i es /\ In o es /\ e_dst i = m /\ e_src o = m /\ port_eqb (e_sport o) (e_dport i) = true /\
+                    e = mkEdge k (e_src i) (e_dst o) (e_sport i) (e_dport o))).
+  Proof.
+    unfold remove_mb in Hrm.
+    destruct (existsb (fun i => N.eqb (e_src i) m) (ins es m)) eqn:Hself; [discriminate|].
+    destruct (_ || _); [discriminate|]. destruct (negb _); [discriminate|].
+    injection Hrm as <-.
+    assert (S1 : forall i, In i es -> e_dst i = m -> e_src i <> m).
+    { intros i Hi Hd E. assert (existsb (fun i => N.eqb (e_src i) m) (ins es m) = true).
+      { apply existsb_exists. exists i. split; [apply filter_In; split; [exact Hi|apply N.eqb_eq; exact Hd]|apply N.eqb_eq; exact E]. }
+      congruence. }
+    split; [exact S1|]. split.
+    - intros o Ho Hs E. exact (S1 o Ho E Hs).
+    - intro e. rewrite in_app_iff. split.
+      + intros [H|H].
+        * left. unfold others in H. apply filter_In in H. destruct H as [H Hc].
+          apply andb_true_iff in Hc. destruct Hc as [A B]. apply negb_true_iff in A. apply negb_true_iff in B.
+          apply N.eqb_neq in A. apply N.eqb_neq in B. auto.
+        * right. apply in_flat_map in H. destruct H as (i & Hi & H). apply in_map_iff in H. destruct H as (o & <- & Ho).
+          apply filter_In in Ho. destruct Ho as [Ho Hp].
+          apply filter_In in Hi. destruct Hi as [Hi Hd]. apply N.eqb_eq in Hd.
+          apply filter_In in Ho. destruct Ho as [Ho Hs]. apply N.eqb_eq in Hs.
+          exists i, o. auto 8.
+      + intros [(H & A & B)|(i & o & Hi & Ho & Hd & Hs & Hp & ->)].
+        * left. apply filter_In. split; [exact H|]. apply andb_true_iff. split; apply negb_true_iff; apply N.eqb_neq; assumption.
+        * right. apply in_flat_map. exists i. split; [apply filter_In; split; [exact Hi|apply N.eqb_eq; exact Hd]|].
+          apply in_map_iff. exists o. split; [reflexivity|]. apply filter_In. split; [|exact Hp].
+          apply filter_In. split; [exact Ho|apply N.eqb_eq; exact Hs].
+  Qed.
+
+  Lemma route_p_fwd : forall x q t pt, route_p es (m :: M) x q t pt ->
+    (x <> m -> route_p es' M x q t pt) /\
+    (x = m -> forall i, In i es -> e_dst i = m -> e_dport i = q ->
+       exists o', In o' es' /\ e_src o' = e_src i /\ e_sport o' = e_sport i /\
+                  route_p es' M (e_dst o') (e_dport o') t pt).
+  Proof.
+    destruct mb_facts as (S1 & S2 & Hes').
+    induction 1 as [x q Hx|x q o1 t pt Hx Ho1 Hs Hp Hr IH].
+    - split; [intro Hn; apply rp_end; intro H; apply Hx; right; exact H|].
+      intro E. exfalso. apply Hx. left. auto.
+    - destruct IH as [IH1 IH2]. split.
+      + intro Hn. assert (HxM : In x M) by (destruct Hx as [Hx|Hx]; [congruence|exact Hx]).
+        destruct (N.eq_dec (e_dst o1) m) as [Ed|Ed].
+        * destruct (IH2 Ed o1 Ho1 Ed eq_refl) as (o' & Ho' & A & B & R).
+          apply rp_step with (o := o'); [exact HxM|exact Ho'|congruence|rewrite B; exact Hp|exact R].
+        * apply rp_step with (o := o1); [exact HxM| |exact Hs|exact Hp|apply IH1; exact Ed].
+          apply Hes'. left. split; [exact Ho1|]. split; [congruence|exact Ed].
+      + intros E i Hi Hd Hq. subst x.
+        assert (Ed : e_dst o1 <> m) by (apply S2; auto).
+        exists (mkEdge k (e_src i) (e_dst o1) (e_sport i) (e_dport o1)). simpl. split.
+        * apply Hes'. right. exists i, o1. repeat split; auto. rewrite Hq. exact Hp.
+        * split; [reflexivity|]. split; [reflexivity|]. apply IH1. exact Ed.
+  Qed.
+
+  Lemma route_p_bwd : forall x q t pt, route_p es' M x q t pt -> x <> m -> route_p es (m :: M) x q t pt.
+  Proof.
+    destruct mb_facts as (S1 & S2 & Hes').
+    induction 1 as [x q Hx|x q o1 t pt Hx Ho1 Hs Hp Hr IH]; intro Hn.
+    - apply rp_end. intros [H|H]; [congruence|contradiction].
+    - apply Hes' in Ho1. destruct Ho1 as [(Ho & A & B)|(i & o & Hi & Ho & Hd & Hso & Hpo & ->)].
+      + apply rp_step with (o := o1); [right; exact Hx|exact Ho|exact Hs|exact Hp|].
+        apply IH. exact B.
+      + simpl in *. apply rp_step with (o := i); [right; exact Hx|exact Hi|exact Hs|exact Hp|].
+        rewrite Hd. apply rp_step with (o := o); [left; reflexivity|exact Ho|exact Hso|exact Hpo|].
+        apply IH. apply S2; auto.
+  Qed.
+
+  Theorem remove_mb_preserves_conn_p : forall w, conn_p es (m :: M) w <-> conn_p es' M w.
+  Proof.
+    destruct mb_facts as (S1 & S2 & Hes').
+    intros [[[a pa] t] pt]. unfold conn_p. split.
+    - intros (Ha & e & He & Hs & Hp & Hr).
+      assert (Han : a <> m) by (intro E; apply Ha; left; auto).
+      split; [intro H; apply Ha; right; exact H|].
+      destruct (route_p_fwd _ _ _ _ Hr) as [F1 F2].
+      destruct (N.eq_dec (e_dst e) m) as [Ed|Ed].
+      + destruct (F2 Ed e He Ed eq_refl) as (o' & Ho' & A & B & R). exists o'. repeat split; auto; congruence.
+      + exists e. repeat split; auto. apply Hes'. left. split; [exact He|]. split; [congruence|exact Ed].
+    - intros (Ha & e & He & Hs & Hp & Hr).
+      apply Hes' in He. destruct He as [(He & A & B)|(i & o & Hi & Ho & Hd & Hso & Hpo & ->)].
+      + split; [intros [H|H]; [congruence|contradiction]|].
+        exists e. repeat split; auto. apply route_p_bwd; auto.
+      + simpl in *. subst a pa. split; [intros [H|H]; [exact (S1 i Hi Hd (eq_sym H))|contradiction]|].
+        exists i. repeat split; auto. rewrite Hd.
+        apply rp_step with (o := o); [left; reflexivity|exact Ho|exact Hso|exact Hpo|].
+        apply route_p_bwd; [exact Hr|]. apply S2; auto.
+  Qed.
+End MbStep.
+
+Lemma conn_p_nil es w : conn_p es [] w <-> In w (map wire_of es).
+Proof.
+  destruct w as [[[a pa] t] pt]. unfold conn_p. split.
+  - intros (_ & e & He & Hs & Hp & Hr). inversion Hr; subst.
+    + apply in_map_iff. exists e. split; [|exact He]. unfold wire_of. reflexivity.
+    + match goal with H : In _ [] |- _ => destruct H end.
+  - intro H. apply in_map_iff in H. destruct H as (e & Hw & He). unfold wire_of in Hw.
+    injection Hw as <- <- <- <-. split; [intros []|].
+    exists e. repeat split; auto. apply rp_end. intros [].
+Qed.
+
+(* merge_modules over any list of distinct module boundaries: the wires of the result are exactly
+   the end-to-end connections of the original graph through the boundaries, matched port by port *)
+Theorem merge_mbs_preserves_wiring : forall ms es k es',
+  NoDup ms -> merge_mbs es ms k = MbOk es' ->
+  forall w, In w (map wire_of es') <-> conn_p es ms w.
+Proof.
+  induction ms as [|m ms IH]; intros es k es' Hnd He w; simpl in He.
+  - injection He as <-. symmetry. apply conn_p_nil.
+  - destruct (remove_mb es m k) as [es1| |] eqn:E1; try discriminate.
+    inversion Hnd as [|? ? Hm Hnd']; subst.
+    rewrite (IH es1 (k + 1) es' Hnd' He w).
+    symmetry. apply (remove_mb_preserves_conn_p es es1 m k ms E1 Hm).
+Qed.
